@@ -126,6 +126,10 @@ pub fn check(property: &str, tier: &str, started: Instant) -> i32 {
             return 2;
         }
     };
+    if !agg.aborted_runs.is_empty() {
+        eprintln!("HARNESS-ERROR: a worker process died during run indexes {:?} (stack overflow or abort inside the system under test or the harness); reproduce with: sim worker <world> <tier> <seed> <i> <i+1> /tmp/x.json", agg.aborted_runs);
+        return 2;
+    }
     let findings = runner::load_findings();
     let mut violations = 0u64;
     let mut known_seen: Vec<String> = vec![];
